@@ -2,7 +2,7 @@
    Property theorems only; each is closed by [exact] of a lemma proved in proofs/.
 
    Model: model/Chan.v (risor's Chan over a Go channel; a schedule is any list of atomic steps
-   Send i | Recv j | Next j | Entry j | Close k | Cancel | ...Ctx of any number of senders and
+   Send i | Recv j | Next j | Store j | Count j | Entry j | Close k | Cancel | ...Ctx of any number of senders and
    receivers, any capacity) and model/Spawn.v (Thread/wait, argument slices of Spawn). *)
 From Coq Require Import List Bool Arith NArith Permutation.
 Require Import RV.model.Chan RV.model.Spawn RV.proofs.ChanProofs RV.proofs.SpawnProofs.
@@ -20,14 +20,14 @@ Proof. exact fifo_all_schedules. Qed.
 
 (* ---------------------------------------------------------------- exactly once, in order (guarded) *)
 
-(* G = [exclusive]: no Chan.Next while another receiver is between its Next and its Entry (decidable
+(* G = [exclusive]: no receiver enters Chan.Next while another one is inside ForIter (decidable
    by running the schedule).  Under G, at any quiescent point (queue empty, no iteration in progress):
    every receiver's script was handed exactly the values the channel released to it, in that order
    (receive(), <-c and range alike), the released values are per sender exactly the values sent, in
    the sender's order, and the range keys count 0,1,2,... *)
 Theorem C10_guarded : forall (prog : nat -> list N) (c : nat) (sch : list act) (s : st),
   run (init c prog) sch = Some s -> exclusive (init c prog) sch = true ->
-  buf s = [] -> pending s = [] ->
+  buf s = [] -> iters s = [] ->
   (forall i, from i (map snd (deq s)) ++ tag i (todo s i) = tag i (prog i)) /\
   (forall j, by_key j (delivered (seen s)) = by_key j (deq s)) /\
   entry_keys (seen s) = seq 0 (length (entry_keys (seen s))).
@@ -43,18 +43,18 @@ Proof. exact single_exclusive_init. Qed.
    permutation of the values of the senders' programs (each exactly once) *)
 Theorem C10_guarded_exactly_once : forall (prog : nat -> list N) (c : nat) (sch : list act) (s : st) (n : nat),
   run (init c prog) sch = Some s -> exclusive (init c prog) sch = true ->
-  buf s = [] -> pending s = [] -> (forall i, todo s i = []) -> (forall i, n <= i -> prog i = []) ->
+  buf s = [] -> iters s = [] -> (forall i, todo s i = []) -> (forall i, n <= i -> prog i = []) ->
   Permutation (payloads (map snd (delivered (seen s)))) (flat_map prog (seq 0 n)).
 Proof. exact guarded_multiset. Qed.
 
 (* ---------------------------------------------------------------- the full statement is false of the code as it is *)
 
-(* two receivers range over one channel: Next 1 takes 10, Next 2 takes 11 and overwrites
-   lastReceived, both Entry steps read 11: 11 is delivered twice, 10 is lost *)
+(* two receivers range over one channel: Next 1 takes 10, Next 2 takes 11, receiver 1 stores 10 in
+   lastReceived, receiver 2 overwrites it with 11, both Entry steps read 11: 11 is delivered twice, 10 is lost *)
 Theorem C10_refuted_range_multi :
   exists (prog : nat -> list N) (c : nat) (sch : list act) (s : st),
     run (init c prog) sch = Some s /\
-    buf s = [] /\ pending s = [] /\ (forall i, todo s i = []) /\
+    buf s = [] /\ iters s = [] /\ (forall i, todo s i = []) /\
     map snd (deq s) = [(0, 10%N); (0, 11%N)] /\
     delivered (seen s) = [(1, (0, 11%N)); (2, (0, 11%N))] /\
     multi_iter sch = true /\ exclusive (init c prog) sch = false.
@@ -65,16 +65,17 @@ Proof. exists prog2, 2, sch_bad. exact range_multi_witness. Qed.
    channel did not release (no invented value) *)
 Theorem C10_all_schedules_count_and_origin : forall (prog : nat -> list N) (c : nat) (sch : list act) (s : st),
   run (init c prog) sch = Some s ->
-  length (delivered (seen s)) + length (pending s) = length (deq s) /\
-  NoDup (pending s) /\
+  length (delivered (seen s)) + length (iters s) = length (deq s) /\
+  NoDup (map fst (iters s)) /\
   (forall m, last s = Some m -> In m (map snd (deq s))) /\
-  (forall p, In p (delivered (seen s)) -> In (snd p) (map snd (deq s))).
+  (forall p, In p (delivered (seen s)) -> In (snd p) (map snd (deq s))) /\
+  (forall j ph m, In (j, (ph, m)) (iters s) -> In m (map snd (deq s))).
 Proof. exact weak_all_schedules. Qed.
 
 (* ---------------------------------------------------------------- closed and drained *)
 
 Theorem C10_closed_drained_nil : forall (s : st) (j : nat),
-  closed s = true -> buf s = [] -> mem j (pending s) = false ->
+  closed s = true -> buf s = [] -> busy j s = false ->
   step s (Recv j) = Some (note s (EvRecvNil j), EvRecvNil j).
 Proof. exact recv_closed_drained. Qed.
 
@@ -90,7 +91,7 @@ Proof. exact drained_forever. Qed.
 (* ---------------------------------------------------------------- iteration ends at close *)
 
 Theorem C10_iteration_ends_at_close : forall (s : st) (j : nat),
-  closed s = true -> buf s = [] -> mem j (pending s) = false ->
+  closed s = true -> buf s = [] -> busy j s = false ->
   step s (Next j) = Some (note s (EvIterEnd j), EvIterEnd j).
 Proof. exact next_closed_drained. Qed.
 
@@ -137,16 +138,16 @@ Proof. exact accept_sound. Qed.
 
 Definition ex_prog : nat -> list N := fun i => match i with 0 => [1; 2; 3]%N | 1 => [7; 8]%N | _ => [] end.
 Definition ex_sch : list act :=
-  [Send 0; Send 1; Next 5; Send 0; Entry 5; Recv 6; Send 1; Next 5; Entry 5; Send 0; Recv 6; Next 5; Entry 5;
-   Close 0; Next 5; Recv 6; Recv 6].
+  [Send 0; Send 1; Next 5; Send 0; Store 5; Count 5; Entry 5; Recv 6; Send 1; Next 5; Store 5; Recv 6; Count 5; Entry 5;
+   Send 0; Next 5; Store 5; Count 5; Entry 5; Close 0; Next 5; Recv 6; Recv 6].
 
 Example C10_guarded_satisfiable :
   exists s, run (init 2 ex_prog) ex_sch = Some s /\ exclusive (init 2 ex_prog) ex_sch = true /\
-            single_iter 5 ex_sch = true /\ buf s = [] /\ pending s = [] /\
+            single_iter 5 ex_sch = true /\ buf s = [] /\ iters s = [] /\
             by_key 5 (delivered (seen s)) = [(0, 1%N); (0, 2%N); (0, 3%N)] /\
             by_key 6 (delivered (seen s)) = [(1, 7%N); (1, 8%N)] /\
             entry_keys (seen s) = [0; 1; 2] /\
-            skipn 14 (seen s) = [EvIterEnd 5; EvRecvNil 6; EvRecvNil 6].
+            skipn 20 (seen s) = [EvIterEnd 5; EvRecvNil 6; EvRecvNil 6].
 Proof. eexists. split; [vm_compute; reflexivity|]. vm_compute. repeat split. Qed.
 
 Example C10_wait_satisfiable :
